@@ -4,7 +4,9 @@
 # writes the fact file. Serialised with flock (the cargo target dir is shared).
 set -u
 VERIF="$(cd "$(dirname "$0")/.." && pwd)"
-DIR="$1"; OUT="$2"; CRATE="${3:-zinoma}"; shift; shift; [ $# -gt 0 ] && shift
+DIR="$(cd "$1" && pwd)"; OUT="$2"; CRATE="${3:-zinoma}"; shift; shift; [ $# -gt 0 ] && shift
+case "$OUT" in /*) ;; *) OUT="$PWD/$OUT";; esac
+mkdir -p "$(dirname "$OUT")"
 CACHE="$VERIF/.cache"; TGT="${ZF_TARGET_DIR:-$CACHE/target}"
 DRV="$VERIF/extractor/target/release/zfacts"
 [ -x "$DRV" ] || { echo "ANALYSIS-ERROR: extractor not built (run setup)" >&2; exit 2; }
